@@ -355,6 +355,15 @@ class Check:
         json.dump(replay_obj, open(path, "w"), indent=1, default=str)
         self.violations.append((path, suffix))
 
+    def is_known(self, key):
+        """True (and remembered for the KNOWN-FINDING line) iff `key` is a listed known finding."""
+        for kf in self.known_findings.get("findings", []):
+            if kf.get("property") == self.pid and kf.get("kind") == "known" and kf.get("key") == key:
+                if key not in [k for k, _ in self.known]:
+                    self.known.append((key, kf.get("text", key)))
+                return True
+        return False
+
     def known_or_violation(self, key, replay_obj, text):
         """key: stable identifier of the failing item; suppressed only if listed as known."""
         for kf in self.known_findings.get("findings", []):
